@@ -334,6 +334,20 @@ impl C07 {
                     }
                     (Err(e), true) => rep.failed("query_equals_claim", None, format!("Rewards query fails ({e}) but the claim pays {:?}", paid), witness(json!({"user": w.name_of(&user)}))),
                 }
+                // --- a claim is refused only for the reasons the interface names: no open position,
+                // an epoch outside (last claimed, current], funds attached. Anything else (an
+                // arithmetic failure, an exhausted farm) withholds the user's share
+                if !s.out.is_ok() {
+                    let why = s.out.err_msg().unwrap_or("");
+                    let named = why.contains("Invalid epoch") || why.contains("doesn't have open positions") || why.contains("does no accept funds") || why.contains("does not accept funds");
+                    if named && !s.out.is_abort() {
+                        rep.held("claim_possible", hash_of(&crate::ops::err_class(why)), || json!({"user": w.name_of(&user), "refused_because": why}));
+                    } else {
+                        rep.failed("claim_possible", None, format!("claim by {} (open positions: {has_open}, until_epoch {:?}) failed: {}", w.name_of(&user), until_epoch, s.out.short()), witness(json!({"user": w.name_of(&user), "result": s.out.short()})));
+                    }
+                } else {
+                    rep.held("claim_possible", hash_of(&("ok", until_epoch.is_some())), || json!({"user": w.name_of(&user), "claim": "executed"}));
+                }
                 // --- clause 2: the payment is the weight share, floored per farm-epoch
                 if s.out.is_ok() {
                     let last = self.ledger.last.get(&user).copied();
